@@ -38,7 +38,9 @@ import tempfile
 
 import z3
 
-sys.path.insert(0, '/repo') if '/repo' not in sys.path else None
+import os as _os
+_REPO = _os.environ.get('VERIF_REPO', '/repo')
+sys.path.insert(0, _REPO) if _REPO not in sys.path else None
 
 import cfront
 from cfront import Cell, StructObj, UnionObj, ArrayObj, Ptr
